@@ -210,8 +210,12 @@ func (n *Network) Dial(nc *rt.NodeCtx, addr string, timeout time.Duration) (net.
 	to := nodeID(l.NC)
 	if !n.linkUp(from, to) || !n.linkUp(to, from) {
 		n.Stats.DialTimeout++
-		if timeout <= 0 {
-			timeout = 30 * time.Second
+		if timeout < 0 {
+			// net.DialTimeout with an expired budget fails at once
+			return nil, timeoutErr{"dial"}
+		}
+		if timeout == 0 {
+			timeout = 30 * time.Second // no timeout given: the OS gives up eventually
 		}
 		simtime.Sleep(timeout)
 		return nil, timeoutErr{"dial"}
